@@ -145,6 +145,19 @@ def guarded(st, function, site, args, call, inp, root_parent=None, result_must_b
                 }
             )
             break
+    if function == "builder" and isinstance(result, Expr) and not result_must_be_fresh:
+        # a builder called with copy=True may adopt nodes it is given as children (known family), but what it RETURNS is a new
+        # object: if the result is itself a node of an argument tree, editing the result edits the argument
+        for label, t in args.items():
+            if label != "instance" and id(result) in _ids(t):
+                st.viol.append(
+                    {
+                        "key": f"c09:{function}:result-is-argument-node:{site('') if callable(site) else site}/{label}",
+                        "what": f"[{label}] the builder returned a node of the argument tree itself ({type(result).__name__})",
+                        "input": inp,
+                    }
+                )
+                break
     if result_must_be_fresh and isinstance(result, Expr):
         rid = _ids(result)
         for label, t in args.items():
@@ -586,6 +599,10 @@ COND_BUILDERS = {
     "Update.from_(table-node)": lambda c, d: d.update.from_(d.table),
     "DataType.build(dtype-node)": lambda c, d: exp.DataType.build(d.dtype),
     "cast(node,dtype-node)": lambda c, d: exp.cast(d.col, d.dtype),
+    "cast(cast-node,same-type)": lambda c, d: exp.cast(d.cast, d.dtype.sql()),
+    "cast(cast-node,same-type,dialect)": lambda c, d: exp.cast(d.cast, d.dtype.sql(), dialect="postgres"),
+    "cast(cast-node,other-type)": lambda c, d: exp.cast(d.cast, "text"),
+    "try_cast-like: cast(cast-node,dtype-node)": lambda c, d: exp.cast(d.cast, d.dtype),
 }
 
 
